@@ -63,4 +63,26 @@ func Run() {
 		s += v
 	}
 	host.Emit(2, s)
+	// the "scoped lock" idiom: a function literal called on the spot in the loop
+	// body, which itself starts a goroutine capturing the loop variable
+	var mu sync.Mutex
+	res3 := make([]int, n)
+	started := 0
+	for i := 0; i < n; i++ {
+		func() {
+			mu.Lock()
+			defer mu.Unlock()
+			started++
+			wg.Add(1)
+			go func() {
+				defer wg.Done()
+				res3[i] = i*i + 1
+			}()
+		}()
+	}
+	wg.Wait()
+	for _, v := range res3 {
+		host.Emit(3, v)
+	}
+	host.Emit(4, started)
 }
